@@ -3,7 +3,10 @@
 package app
 
 import (
+	"context"
 	"sort"
+	"strconv"
+	"sync"
 	"time"
 
 	"github.com/f1bonacc1/process-compose/src/command"
@@ -127,3 +130,100 @@ func (p *ProjectRunner) VerifRunningNames() []string {
 
 // VerifExitCode returns the project exit code recorded so far.
 func (p *ProjectRunner) VerifExitCode() int { return p.exitCode }
+
+func verifLockFree(m *sync.Mutex) bool {
+	if m.TryLock() {
+		m.Unlock()
+		return true
+	}
+	return false
+}
+
+// verifCmdDone: the (fake) command has exited and both output readers have finished.
+func verifCmdDone(p *Process) bool {
+	if c, ok := p.command.(interface{ VerifExited() bool }); ok && !c.VerifExited() {
+		return false
+	}
+	closed := func(ch chan struct{}) bool {
+		if ch == nil {
+			return true
+		}
+		select {
+		case <-ch:
+			return true
+		default:
+			return false
+		}
+	}
+	if p.procConf.IsDaemon {
+		return true
+	}
+	return closed(p.stdOutDone) && closed(p.stdErrDone)
+}
+
+func verifStartedOrCancelled(p *Process) bool {
+	if p.procRunCtx.Err() != nil {
+		return true
+	}
+	select {
+	case <-p.procStartedChan:
+		return true
+	default:
+		return false
+	}
+}
+
+// VerifStopCtx, when set, replaces the kill-timeout context of forceKillOnTimeout by a
+// harness-controlled one (so that "the timeout elapsed" becomes a schedulable event).
+var VerifStopCtx func(name string, c context.Context, f context.CancelFunc) (context.Context, context.CancelFunc)
+
+func verifStopCtx(p *Process, c context.Context, f context.CancelFunc) (context.Context, context.CancelFunc) {
+	if VerifStopCtx == nil {
+		return c, f
+	}
+	return VerifStopCtx(p.getName(), c, f)
+}
+
+// VerifProbeResult feeds a synthetic go-health check result to the readiness ("ready") or
+// liveness ("live") prober of the running instance of name, through healthCheckCompleted.
+func (p *ProjectRunner) VerifProbeResult(name, kind string, contiguousFailures int64, status string) bool {
+	p.runProcMutex.Lock()
+	proc := p.runningProcesses[name]
+	p.runProcMutex.Unlock()
+	if proc == nil {
+		return false
+	}
+	pr := proc.readyProber
+	if kind == "live" {
+		pr = proc.liveProber
+	}
+	if pr == nil {
+		return false
+	}
+	pr.VerifCheckCompleted(contiguousFailures, status)
+	return true
+}
+
+// VerifSnapshot: canonical view of every process state in the state map (no locks: the harness
+// calls it while every scheduled thread is parked).
+func (p *ProjectRunner) VerifSnapshot() map[string][4]string {
+	out := map[string][4]string{}
+	for n, st := range p.processStates {
+		out[n] = [4]string{st.Status, itoa(st.ExitCode), itoa(st.Restarts), st.Health}
+	}
+	return out
+}
+
+func itoa(i int) string { return strconv.Itoa(i) }
+
+// VerifDoneNames lists the keys of the done-process registry.
+func (p *ProjectRunner) VerifDoneNames() []string {
+	p.doneProcMutex.Lock()
+	defer p.doneProcMutex.Unlock()
+	l := []string{}
+	for n := range p.doneProcesses {
+		l = append(l, n)
+	}
+	sort.Strings(l)
+	return l
+}
